@@ -53,10 +53,21 @@ def gen_program(rng, nops):
                 node_at(root, s)["kids"] = []
                 node_at(root, d)["kids"] = taken
             ops.append("m%s=%s" % (pstr(d), pstr(s)))
-        else:
+        elif r < 0.96:
             p = rng.choice(paths)
             node_at(root, p)["kids"] = []
             ops.append("r" + pstr(p))
+        elif r < 0.98:
+            # ResizeAndInitialize(n): keep the first n items, default-construct the rest (id 0)
+            p = rng.choice(paths); n = rng.randrange(0, 5)
+            kids = node_at(root, p)["kids"]
+            node_at(root, p)["kids"] = kids[:n] + [{"id": 0, "kids": []} for _ in range(max(0, n - len(kids)))]
+            ops.append("z%s:%d" % (pstr(p), n))
+        else:
+            # Reserve(n, true): n default-constructed items
+            p = rng.choice(paths); n = rng.randrange(0, 5)
+            node_at(root, p)["kids"] = [{"id": 0, "kids": []} for _ in range(n)]
+            ops.append("v%s:%d" % (pstr(p), n))
         outs.append(dump(root))
     return "atree " + ";".join(ops), "|".join(outs) if outs else "-"
 
